@@ -524,7 +524,7 @@ fn replay(cli: &Cli, path: &std::path::Path) -> i32 {
     print_replay_result(PROP, &rr)
 }
 
-#[derive(Default)]
+#[derive(Default, serde::Serialize, serde::Deserialize)]
 struct Acc {
     runs: u64,
     steps: u64,
@@ -546,6 +546,9 @@ struct Acc {
     inconclusive: u64,
 }
 
+/// executions per child process (shuttle leaks ~250 KB per execution that ends by a panic)
+const PROC_CHUNK: u64 = 6_000;
+
 pub fn main(cli: &Cli) -> i32 {
     if let Some(p) = &cli.replay {
         return replay(cli, p);
@@ -559,10 +562,10 @@ pub fn main(cli: &Cli) -> i32 {
     let determinism = cli.mode.as_deref() == Some("determinism");
     let mut ev = Evidence::new(PROP, cli);
     let silencer = StderrSilencer::new();
-    let (mut acc, _) = par_fold(
+    let folded = par_fold_chunked(
+        cli,
         n,
-        cli.workers,
-        None,
+        PROC_CHUNK,
         Acc::default,
         |acc: &mut Acc, k: u64| {
             let case = gen_case(seed, k);
@@ -666,6 +669,14 @@ pub fn main(cli: &Cli) -> i32 {
         },
     );
     drop(silencer);
+    let mut acc = match folded {
+        Ok(Some(a)) => a,
+        Ok(None) => return EXIT_OK,
+        Err(e) => {
+            eprintln!("harness error: {}", e);
+            return EXIT_HARNESS;
+        }
+    };
     acc.digests.sort();
     let mut batch = 0xcbf2_9ce4_8422_2325u64;
     for (k, h) in &acc.digests {
